@@ -16,14 +16,16 @@ pub struct DropExecutor<S: Storage> {
 impl<S: Storage> DropExecutor<S> {
     #[try_stream(boxed, ok = DataChunk, error = ExecutorError)]
     pub async fn execute(self) {
-        for table in self.tables {
-            // the table may have been dropped by another session since the statement was bound;
-            // the storage reports that as an error
-            if (self.catalog.get_table(&table)).is_some_and(|t| t.is_view()) {
-                self.catalog.drop_table(table);
-            } else {
-                self.storage.drop_table(table).await?;
-            }
+        // a table may have been dropped by another session since the statement was bound;
+        // the storage reports that as an error
+        let (views, tables): (Vec<_>, Vec<_>) = (self.tables.into_iter())
+            .partition(|table| (self.catalog.get_table(table)).is_some_and(|t| t.is_view()));
+        // the tables of one statement are dropped together (one record in the disk engine's log)
+        if !tables.is_empty() {
+            self.storage.drop_tables(&tables).await?;
+        }
+        for view in views {
+            self.catalog.drop_table(view);
         }
         yield DataChunk::single(1);
     }
